@@ -2,7 +2,7 @@
    (bool, option, unit, list, prod, sumbool, comparison -> OCaml's own); nat, positive, N, Z
    stay the Coq inductives.  Run with coqc from /verif/ocaml so model.ml lands there. *)
 From Coq Require Import Extraction ExtrOcamlBasic.
-From Servitor Require Import Base Unicode Ansi AnsiSpec Term Oracles Style Html Gemtext Plaintext Mime Json Object Jtp Client Request Collection Splicer Config Hook ExtractAux History Feed Ui.
+From Servitor Require Import Base Unicode Ansi AnsiSpec Term Oracles Style Html Gemtext Plaintext Mime Json Object Jtp Client Request Listing Collection Splicer Config Hook ExtractAux History Feed Ui.
 Extraction Language OCaml.
 Extraction "model.ml"
   text_eqb is_space is_control
@@ -10,6 +10,7 @@ Extraction "model.ml"
   replace_last_line scrub squash set_length
   mime_parse get_any get_string get_number get_object get_list get_time get_url get_media_type get_markup f64_to_int
   Z.div_eucl Z.add Z.mul Z.opp Z.abs
+  timeline_entry reply_entry new_post new_actor kind_in actor_kinds post_kinds activity_kinds
   fetch_url fetch_unknown get parse_request no_crlf no_crlf_sp request_bytes classify_response
   update run_task settle settle_gated snapshot ui_init resize view
   config_fields render_with_links gem_render_with_links plain_render_with_links split_nl
